@@ -290,7 +290,7 @@ impl Prop for C10 {
         Ok(())
     }
     fn rule(&self) -> String {
-        "generated (site |lat|<=60 with extra mass in 46-60, GMT within 1 h of lon/15, 8 named methods, the 10 policies named in the statement, substitute latitude in [-60,60] of either sign, Fajr/Isha intervals in [1,120] for the minutes-from-maghrib policies, date mixture). Expected values are built from the conventional run (and a conventional run at the substitute latitude) with the formulas of the statement. Non-trivial = the policy actually applied (an 'always' variant, or an 'invalid'/angle-based one on a day with a missing time); distinct by hash of the case".into()
+        "generated (site |lat|<=60 with extra mass in 46-60, GMT within 1 h of lon/15, 8 named methods, the 10 policies named in the statement, substitute latitude in [-60,60] of either sign, Fajr/Isha intervals in [1,120] for the minutes-from-maghrib policies, date mixture). Expected values are built from the conventional run (and a conventional run at the substitute latitude) with the formulas of the statement. A tenth of the nearest-latitude cases use a substitute latitude equal to or within 1e-6..0.05 deg of the site's own; every case is preceded by a priming call with a sibling input. Non-trivial = the policy actually applied (an 'always' variant, or an 'invalid'/angle-based one on a day with a missing time); distinct by hash of the case".into()
     }
     fn assumptions(&self) -> Vec<String> {
         vec![
